@@ -69,6 +69,10 @@ def check(ctx):
         "guards, drops, outer-variable stores, thread moves/shares.  Not covered: control flow, user-defined types and functions, trait objects, "
         "interior mutability, mem::swap/replace/take of handles (DESIGN.md §10: swapping two &mut BumpScope<'a> of different arenas compiles and is "
         "outside every alphabet), mem::forget, unwinding",
+        "conversions between lifetime-carrying values (Gen/Sigs.lean `valueConvs`): `From` impls, the by-value accessors of Stats / Chunk / AnyStats / "
+        "AnyChunk, iterator items, `FixedBumpVec::from_init` and `BumpVec::from_parts` are statements of the calculus (`vconv`, `join`) and part of "
+        "the derived corpus; the `AsRef`/`Borrow`/`Deref` rows and `BumpString::from_parts` are only checked at table level (C04.convs_tied); "
+        "conversions of other types (`into_parts`, `into_fixed_vec`, owned_slice …) are not extracted",
         "claim(&self) is typed as an exclusive borrow of its receiver (stricter than the real signature); the shared form is sound only because a "
         "claimed allocator is inert at run time (property C14), which the calculus does not model",
         "BumpPool::get always hands out a fresh arena in the calculus (reuse of returned arenas is not modelled)",
@@ -80,7 +84,8 @@ def check(ctx):
         "C04.sound_partial (the extracted table without the `&'a mut Bump` implementor of BumpAllocatorCoreScope)",
     ]
     return finish(ctx, "Gen/Sigs.lean (regenerated from the sources: signatures with receiver mode and result lifetimes, BumpAllocatorCoreScope "
-                       "implementors, const-assert blocks, struct fields and Send/Sync impls) satisfies the decidable adequacy predicate sigOK "
+                       "implementors, const-assert blocks, conversions between lifetime-carrying values with the relation of their output lifetimes to the "
+                       "input's, struct fields and Send/Sync impls) satisfies the decidable adequacy predicate sigOK "
                        "(by `decide`) apart from the recorded deviation C04-a; sigOK implies soundness of the region calculus (every accepted "
                        "program runs without use-after-epoch-end / dead-arena / cross-thread fault; proved by induction over programs) and that "
                        "compiling settings conversions do not weaken a guarantee (for all settings); the calculus' executable type checker "
